@@ -522,6 +522,8 @@ func ruleCreateStores(w *World, r *Report, rule string) {
 				// return helper(...): delegated to a storing helper, which is checked itself
 				if c, ok := unparen(ex.Ret.Results[0]).(*ast.CallExpr); ok {
 					if cal := callee(info, c); cal != nil && storing[cal] && cal != ro.setInstance.Obj {
+						n++
+						r.OK(rule, fmt.Sprintf("%s#success-exit/%d", fi.Name(), n), ex.Pos, false, "delegated to the storing helper %s, whose own exits are checked", cal.Name())
 						continue
 					}
 				}
